@@ -254,7 +254,7 @@ pub fn scenario(sub: u64) -> Option<(String, bool)> {
     }
     *close_at.lock().unwrap() = closes.clone();
     running.store(k, Ordering::SeqCst);
-    let results: Arc<Mutex<BTreeMap<u16, (Vec<u64>, bool)>>> = Arc::new(Mutex::new(BTreeMap::new()));
+    let results: Arc<Mutex<BTreeMap<u16, (Vec<u64>, bool, u8)>>> = Arc::new(Mutex::new(BTreeMap::new()));
     let mut hs = Vec::new();
     let mut ids = Vec::new();
     for (ch, prog) in chans.into_iter().zip(progs.iter().cloned()) {
@@ -266,6 +266,8 @@ pub fn scenario(sub: u64) -> Option<(String, bool)> {
         hs.push(std::thread::spawn(move || {
             let mut got = Vec::new();
             let mut failed = false;
+            // the first error: 0 none, 1 ServerClosedChannel naming this channel with the server's code and text, 2 another
+            let mut err_kind = 0u8;
             for (i, c) in prog.iter().enumerate() {
                 if jitter > 0 && i as u64 % 3 == jitter - 1 {
                     std::thread::yield_now();
@@ -287,14 +289,18 @@ pub fn scenario(sub: u64) -> Option<(String, bool)> {
                 match r {
                     Ok(Some(v)) => got.push(v),
                     Ok(None) => {}
-                    Err(_) => {
+                    Err(e) => {
                         failed = true;
+                        err_kind = match &e {
+                            amiquip::Error::ServerClosedChannel { channel_id, code: 406, message } if *channel_id == id && message == "closed by the scenario" => 1,
+                            _ => 2,
+                        };
                         break;
                     }
                 }
             }
             run.fetch_sub(1, Ordering::SeqCst);
-            res.lock().unwrap().insert(id, (got, failed));
+            res.lock().unwrap().insert(id, (got, failed, err_kind));
             let _ = ch.close();
         }));
     }
@@ -316,16 +322,17 @@ pub fn scenario(sub: u64) -> Option<(String, bool)> {
     let res = results.lock().unwrap();
     let mut chans_coq = Vec::new();
     for (id, prog) in ids.iter().zip(progs.iter()) {
-        let (got, failed) = res.get(id).cloned().unwrap_or((vec![], true));
+        let (got, failed, err_kind) = res.get(id).cloned().unwrap_or((vec![], true, 2));
         let seen = bo.seen.get(id).cloned().unwrap_or_default();
         chans_coq.push(format!(
-            "({}, {}, {}, {}, {}, {})",
+            "({}, {}, {}, {}, {}, {}, {})",
             id,
             coqfmt::list(prog, |c| format!("({}, {})", if c.sync { "KSync" } else { "KNowait" }, c.r)),
             coqfmt::list(&got, |x| x.to_string()),
             coqfmt::list(&seen, |(s, r)| format!("({}, {})", if *s { "KSync" } else { "KNowait" }, r)),
             coqfmt::b(failed),
-            match closes.get(id) { None => "None".to_string(), Some((k, after)) => format!("(Some ({}, {}))", k, coqfmt::b(*after)) }
+            match closes.get(id) { None => "None".to_string(), Some((k, after)) => format!("(Some ({}, {}))", k, coqfmt::b(*after)) },
+            err_kind
         ));
     }
     // a pseudo-random schedule for the model, derived from the same seed
@@ -345,6 +352,9 @@ pub fn scenario(sub: u64) -> Option<(String, bool)> {
 
 pub fn run(a: &Args) {
     let mut sink = CaseSink::new("C04", "C04sys", &a.out, 40);
+    // the I/O thread is slow between telling a closed channel's consumers and telling its caller
+    // (scheduling point 2): a call made in that window must still learn of the server's close
+    amiquip::verif::set_sched_delay(2, 3000);
     let mut rng = Rng::new(a.seed ^ 0xC04_5);
     let mut subs: Vec<u64> = Vec::new();
     if let Some(pos) = a.rest.iter().position(|x| x == "--line") {
@@ -380,5 +390,6 @@ pub fn run(a: &Args) {
             }
         }
     }
+    amiquip::verif::set_sched_delay(2, 0);
     sink.finish("");
 }
